@@ -111,7 +111,7 @@ theorem endBlock_p {s s' : State} {ups : List (Addr × Int)} (h : Inv s) (he : e
 
 theorem bankOnly_fields {s s0 : State} (hb : BankOnly s s0) :
     s0.vals = s.vals ∧ s0.p = s.p ∧ s0.keys = s.keys ∧ s0.time = s.time := by
-  obtain ⟨b, sup, b2, rfl⟩ := hb
+  obtain ⟨b, sup, b2, ac, rfl⟩ := hb
   exact ⟨rfl, rfl, rfl, rfl⟩
 
 theorem keyAddr_congr {s s0 : State} (h : s0.keys = s.keys) (k : Nat) : keyAddr s0 k = keyAddr s k := by
@@ -186,14 +186,14 @@ theorem min_stake_step (s : State) (op : Op) (r : State × List (Addr × Int) ×
       generalize (runTx s mode t).1 = s' at h1 hp ⊢
       obtain ⟨_, hh⟩ := h1
       by_cases hmsg : (∀ k amt, t.msg ≠ .stake k amt) ∧ (∀ a, t.msg ≠ .unstake a) ∧ (∀ a, t.msg ≠ .unjail a)
-      · obtain ⟨b, sup, p, ac, d, u, rfl⟩ := handle_other_shape hh hmsg
+      · obtain ⟨b, sup, p, ac, d, u, acc, rfl⟩ := handle_other_shape hh hmsg
         intro a w hw hst
         simp only at hw hp ⊢
         rw [hp, ← e2]; exact hm0 a w hw hst
       · cases hmc : t.msg with
         | stake k amt =>
           rw [hmc] at hh
-          obtain ⟨_, hst0, hmin, _, b, rel', sg, hs', _⟩ := handle_stake_shape hh
+          obtain ⟨_, hst0, hmin, _, b, rel', sg, acc, hs', _⟩ := handle_stake_shape hh
           apply hm0.update (keyAddr s0 k) _ (by rw [hs']) (by rw [hs'])
           intro _
           have hnn : 0 ≤ ((aget s0.vals (keyAddr s0 k)).getD defaultVal).tokens := by
@@ -324,12 +324,12 @@ theorem status_step (s : State) (op : Op) (r : State × List (Addr × Int) × Bo
       rw [hok]
       generalize (runTx s .deliver t).1 = s' at hh ⊢
       by_cases hmsg : (∀ k amt, t.msg ≠ .stake k amt) ∧ (∀ a, t.msg ≠ .unstake a) ∧ (∀ a, t.msg ≠ .unjail a)
-      · obtain ⟨b, sup, p, ac, d, u, rfl⟩ := handle_other_shape hh hmsg
+      · obtain ⟨b, sup, p, ac, d, u, acc, rfl⟩ := handle_other_shape hh hmsg
         exact edge_of_eq (show aget s0.vals a = aget s.vals a by rw [e1])
       · cases hmc : t.msg with
         | stake k amt =>
           rw [hmc] at hh
-          obtain ⟨_, hst0, hmin, _, b, rel', sg, hs', _⟩ := handle_stake_shape hh
+          obtain ⟨_, hst0, hmin, _, b, rel', sg, acc, hs', _⟩ := handle_stake_shape hh
           have hvals : s'.vals = aset s.vals (keyAddr s k)
               { ((aget s.vals (keyAddr s k)).getD defaultVal) with
                 tokens := ((aget s.vals (keyAddr s k)).getD defaultVal).tokens + amt, status := 2 } := by
